@@ -6,12 +6,13 @@ import vlib
 from checks import views
 
 ALGS = ["sort", "stable_sort", "partial_sort", "nth_element", "rotate", "reverse", "partition", "unique", "remove", "copy", "copy_backward",
-        "move", "copy_from", "swap_ranges", "fill", "transform", "find", "equal", "is_sorted", "accumulate", "lexicographical_compare"]
+        "move", "copy_from", "swap_ranges", "fill", "transform", "find", "equal", "is_sorted", "accumulate", "lexicographical_compare",
+        "is_sorted_greater", "sort_greater"]
 OPS = [o for o in views.ALL_OPS if o != "broadcast"]
 
 
-def consts(D, ext, depth, maxitems):
-    return {"MaxD": D, "MaxExt": ext, "MaxDepth": depth, "MaxDim": 4, "Bases": vlib.Sub("BasesZero"), "OpNames": set(OPS),
+def consts(D, ext, depth, maxitems, bases="BasesZero", ops=None):
+    return {"MaxD": D, "MaxExt": ext, "MaxDepth": depth, "MaxDim": 4, "Bases": vlib.Sub(bases), "OpNames": set(ops or OPS),
             "ParenArgs": 3, "ParenLean": True, "OneDimQuirk": False, "Emit": True,
             "Algs": set(ALGS), "GKinds": {"outer", "elems"}, "MaxItems": maxitems}
 
@@ -28,10 +29,13 @@ def run(tier):
     ok, text = vlib.compile_cpp(os.path.join(vlib.HARNESS, "replay_algs.cpp"), exe)
     if not ok:
         raise vlib.Broken("replay_algs.cpp does not compile:\n" + text[-3000:])
-    plan = [("c03_d2", consts(2, 3, 1, 9)), ("c03_d3", consts(3, 2, 1, 8))]
+    # c03_bases: the same algorithms on roots and views whose index bases are not zero (in any dimension): the values an
+    # algorithm saves from a proxy row and the proxy rows it compares them with must keep agreeing
+    plan = [("c03_d2", consts(2, 3, 1, 9)), ("c03_d3", consts(3, 2, 1, 8)), ("c03_bases", consts(2, 3, 0, 9, "BasesMixed", OPS + ["reindexed"]))]
     seeds = [vlib.seed(), vlib.seed() + 1] if tier == "quick" else [vlib.seed() + k for k in range(12)]
     if tier == "thorough":
-        plan = [("c03_d2", consts(2, 3, 2, 9)), ("c03_d3", consts(3, 3, 1, 9)), ("c03_d3b", consts(3, 2, 2, 8))]
+        plan = [("c03_d2", consts(2, 3, 2, 9)), ("c03_d3", consts(3, 3, 1, 9)), ("c03_d3b", consts(3, 2, 2, 8)),
+                ("c03_bases", consts(2, 3, 1, 9, "BasesMixed", OPS + ["reindexed"])), ("c03_bases_d3", consts(3, 2, 0, 8, "BasesMixed", OPS + ["reindexed"]))]
     per_alg = rep.cov.setdefault("per_algorithm", {})
     nontrivial = set()
     for name, c in plan:
